@@ -199,6 +199,14 @@ func Val(typ string, nullPct int, reps bool) *rapid.Generator[script.Val] {
 			v.F = math.Float64bits(f)
 		case "text", "varchar", "name", "bpchar", "custom":
 			v.S = CString(300).Draw(t, "s")
+			if typ != "custom" && rapid.IntRange(0, 11).Draw(t, "raw-bytes?") == 0 {
+				// not valid UTF-8 / containing NUL: a value is length-prefixed bytes, whatever they are
+				v.S = ""
+				v.SB = rapid.OneOf(
+					rapid.SampledFrom([][]byte{[]byte("caf\xe9"), {0xff, 0xfe}, {0xc3}, []byte("a\x80b"), {0xed, 0xa0, 0x80}, []byte("nul\x00inside"), {0xf0, 0x9f, 0x98}, []byte("\xe9\xe9\xe9\xe9 latin1")}),
+					rapid.SliceOfN(rapid.Byte(), 1, 40),
+				).Draw(t, "sb")
+			}
 		case "json", "jsonb":
 			v.S = rapid.SampledFrom([]string{`{}`, `[]`, `null`, `{"a":1}`, `"s"`, `[1,2,{"k":"é"}]`, `0`, `{"q":"\"\\"}`, ` {"sp": true} `}).Draw(t, "json")
 		case "bytea":
